@@ -421,6 +421,9 @@ func runC08(s *kernel.Sim, enumerate bool) {
 		}
 	}
 	s.FaultOn = func(point string, a []string) error {
+		if point == "trylock" { // the handler's own mutual exclusion is not a fault point here
+			return nil
+		}
 		if recording {
 			rel, _ := filepath.Rel(relBase, a[0])
 			k := record(point, rel)
@@ -513,7 +516,7 @@ func runC08(s *kernel.Sim, enumerate bool) {
 	inRecovery = false
 	faultInRecovery := false
 	s.FaultOn = func(point string, a []string) error {
-		if !active {
+		if !active || point == "trylock" {
 			return nil
 		}
 		rel, _ := filepath.Rel(relBase, a[0])
